@@ -44,9 +44,16 @@ inductive Item where
 def parseItem (ts : List String) : Option (Item × List String) :=
   match ts with
   | "sl" :: n :: r => n.toNat?.map (fun n => (.sleep n, r))
+  -- lifecycle of the periodic sweep and the choice of the Redis client answer nothing and are
+  -- invisible to the reference (C13_sweep_split_invisible): parsed as a zero sleep
+  | "start" :: r => some (.sleep 0, r)
+  | "stop" :: r => some (.sleep 0, r)
+  | "cl" :: _ :: r => some (.sleep 0, r)
   | "gc" :: r => some (.call .gc, r)
   | "gck" :: k :: r => some (.call (.gcKey (parseKey k)), r)
   | "get" :: k :: r => some (.call (.get (parseKey k)), r)
+  -- Watch (simplified implementation): fires once with the visible value, i.e. answers like Get
+  | "watch" :: k :: r => some (.call (.get (parseKey k)), r)
   | "del" :: k :: r => some (.call (.delete (parseKey k)), r)
   | "ex" :: k :: r => some (.call (.exists (parseKey k)), r)
   | "ttl" :: k :: r => some (.call (.ttl (parseKey k)), r)
@@ -177,6 +184,7 @@ def runModel (ts : List String) : String :=
   | "hammer" :: _ => "ok"
   | "sweep" :: _ => "ok"
   | "burst" :: _ => "-"
+  | "repo" :: _ => "-"
   | _ => "bad-case"
 
 def runHolds (caseToks obsToks : List String) : String :=
@@ -205,6 +213,11 @@ def runHolds (caseToks obsToks : List String) : String :=
     | some progs => boolStr (Spec.holdsConc burstNow progs (splitTok ";" obsToks))
     | none => "false"
   | "hammer" :: _ => boolStr (obsToks == ["ok"])
+  | "repo" :: _ =>
+    -- answers of the real repository-layer components on memory | on Redis
+    match splitTok "|" obsToks with
+    | [a, b] => boolStr (Spec.holdsSame a b)
+    | _ => "false"
   | "burst" :: rest =>
     -- burst <prefix items> / <prog> ; <prog> … / <probe items>      obs: <prefix> / <thr> ; <thr> / <probe>
     match splitTok "/" rest, splitTok "/" obsToks with
